@@ -407,7 +407,9 @@ class SigmaString(SigmaType):
         return self.to_plain(regex=True)
 
     def __bytes__(self) -> bytes:
-        return str(self).encode()
+        # Encode the characters of the string itself. The plain representation (str) escapes
+        # literal wildcard characters with backslashes that are not part of the string content.
+        return self.to_plain(regex=True).encode()
 
     def __len__(self) -> int:
         return sum(
